@@ -33,7 +33,9 @@ type cliRun struct {
 	Stdout   string
 	Stderr   string
 	Ops      []cliOp
-	After    map[string][]byte // workspace content after the run
+	After    map[string][]byte // workspace content after the run (seen through symbolic links)
+	Before   map[string][]byte // the same view of the pre-existing files before the run
+	Real     map[string]string // pre-existing name -> the file it really was before the run (links resolved)
 	Fired    bool
 	Hung     bool // still running after cliTimeout; killed by the harness
 }
@@ -66,8 +68,24 @@ func runCLI(sc *Scenario, plan string) (*cliRun, error) {
 	for _, n := range names {
 		p := filepath.Join(ws, n)
 		os.MkdirAll(filepath.Dir(p), 0o755)
+		if to, ok := strings.CutPrefix(sc.Files[n], symlinkMark); ok {
+			if err := os.Symlink(to, p); err != nil {
+				return nil, err
+			}
+			continue
+		}
 		if err := os.WriteFile(p, []byte(sc.Files[n]), 0o644); err != nil {
 			return nil, err
+		}
+	}
+	before := map[string][]byte{}
+	realOf := map[string]string{}
+	for _, n := range names {
+		if b, err := os.ReadFile(filepath.Join(ws, n)); err == nil {
+			before[n] = b
+		}
+		if rp, err := filepath.EvalSymlinks(filepath.Join(ws, n)); err == nil {
+			realOf[n] = rp
 		}
 	}
 	oplog := filepath.Join(dir, "oplog")
@@ -84,7 +102,7 @@ func runCLI(sc *Scenario, plan string) (*cliRun, error) {
 	timer := time.AfterFunc(cliTimeout, func() { hung.Store(true); cmd.Process.Kill() })
 	err = cmd.Wait()
 	timer.Stop()
-	res := &cliRun{Stdout: so.String(), Stderr: se.String(), After: map[string][]byte{}, Hung: hung.Load()}
+	res := &cliRun{Stdout: so.String(), Stderr: se.String(), After: map[string][]byte{}, Before: before, Real: realOf, Hung: hung.Load()}
 	if err != nil {
 		ee, ok := err.(*exec.ExitError)
 		if !ok {
@@ -118,6 +136,14 @@ func runCLI(sc *Scenario, plan string) (*cliRun, error) {
 		}
 		return nil
 	})
+	// pre-existing names that are (or were) symbolic links: what is read through them now
+	for _, n := range names {
+		if _, ok := res.After[n]; !ok {
+			if b, err := os.ReadFile(filepath.Join(ws, n)); err == nil {
+				res.After[n] = b
+			}
+		}
+	}
 	return res, nil
 }
 
@@ -173,6 +199,10 @@ func parsesTo(b []byte) (uint64, error) {
 
 var goodFlags = [][]string{{}, {"-generate-unsafe"}, {"-private-definitions"}, {"-force-pointer-receivers", "-share-string-memory"}, {"-generate-tags"}, {"-combined-imports"}}
 
+// symlinkMark starts the "content" of a workspace entry that is a symbolic link; the link's
+// destination follows.
+const symlinkMark = "\x00symlink->"
+
 const oldOutput = "// previously generated; must survive a failed run\npackage old\n"
 
 func runC19(c *Ctx) *Replay {
@@ -207,7 +237,7 @@ func runC19(c *Ctx) *Replay {
 		}
 	}
 	sc := Scenario{Kind: "cli", Prog: p.ID, Files: map[string]string{}, Extra: map[string]string{}}
-	class := []string{"valid", "valid", "syntax-error", "validation-error", "import", "import-missing", "import-paths"}[r.Intn(7)]
+	class := []string{"valid", "valid", "syntax-error", "validation-error", "import", "import-missing", "import-paths", "symlinks"}[r.Intn(8)]
 	text := valid
 	pre := "" // directory of the files the tool is pointed at
 	switch class {
@@ -230,7 +260,56 @@ func runC19(c *Ctx) *Replay {
 	}
 	sc.Extra["class"] = class
 	textDir := pre
-	if r.Bool() {
+	if class == "symlinks" {
+		// the schema (and bebopc-go's output) is reached through one or two relative symbolic
+		// links that cross directories; files with the same base names sit next to every hop
+		// (bystanders: whatever happens, they are none of the tool's business)
+		if r.Chance(1, 4) {
+			text = valid + "\nstruct Broken { int32 ; }\n"
+		}
+		hops := r.Range(1, 2)
+		sc.Files["shared/v2.bop"] = text
+		sc.Files["api/v2.bop"] = "struct Bystander { int32 a; }\n"
+		sc.Files["v2.bop"] = "message RootBystander { 1 -> string s; }\n"
+		if hops == 2 {
+			sc.Files["shared/current.bop"] = symlinkMark + "v2.bop"
+			sc.Files["api/schema.bop"] = symlinkMark + "../shared/current.bop"
+			sc.Files["api/current.bop"] = "struct AlsoBystander { byte b; }\n"
+		} else {
+			sc.Files["api/schema.bop"] = symlinkMark + "../shared/v2.bop"
+		}
+		if r.Bool() {
+			sc.Extra["tool"] = "bebopc-go"
+			sc.Files["store/real.go"] = oldOutput
+			sc.Files["gen/real.go"] = "// a bystander\npackage gen\n"
+			if hops == 2 {
+				sc.Files["store/current.go"] = symlinkMark + "real.go"
+				sc.Files["gen/out.go"] = symlinkMark + "../store/current.go"
+				sc.Files["gen/current.go"] = "// another bystander\npackage gen\n"
+			} else {
+				sc.Files["gen/out.go"] = symlinkMark + "../store/real.go"
+			}
+			out := "gen/out.go"
+			if r.Chance(1, 3) {
+				out = "plain.go" // only the input is behind links
+				sc.Files[out] = oldOutput
+			}
+			sc.Args = append([]string{"-i", "api/schema.bop", "-o", out, "-package", "simpkg"}, goodFlags[r.Intn(len(goodFlags))]...)
+			sc.Extra["targets"] = out
+		} else {
+			sc.Extra["tool"] = "bebopfmt"
+			if r.Bool() {
+				sc.Args = []string{"-w", "api/schema.bop"}
+				sc.Extra["targets"] = "api/schema.bop"
+			} else {
+				sc.Args = []string{"-w", "api"}
+				sc.Extra["targets"] = "api/schema.bop,api/v2.bop"
+				if hops == 2 {
+					sc.Extra["targets"] += ",api/current.bop"
+				}
+			}
+		}
+	} else if r.Bool() {
 		sc.Extra["tool"] = "bebopc-go"
 		sc.Files[pre+"in.bop"] = text
 		sc.Files[pre+"out.go"] = oldOutput
@@ -487,7 +566,10 @@ func execCLI(n *Node, sc *Scenario) *Violation {
 		}
 		sort.Strings(names)
 		for _, name := range names {
-			before := []byte(sc.Files[name])
+			before, had := run.Before[name]
+			if !had {
+				continue // a dangling link: there was nothing to keep
+			}
 			after, exists := run.After[name]
 			same := exists && bytes.Equal(after, before)
 			if !same && crashRun && bl.Exit == 0 && exists && bytes.Equal(after, bl.After[name]) {
@@ -527,8 +609,8 @@ func execCLI(n *Node, sc *Scenario) *Violation {
 	}
 	// without -w bebopfmt must not touch any file, whatever happens
 	if sc.Extra["stdout_mode"] == "1" {
-		for name, before := range sc.Files {
-			if after, ok := run.After[name]; !ok || !bytes.Equal(after, []byte(before)) {
+		for name, before := range run.Before {
+			if after, ok := run.After[name]; !ok || !bytes.Equal(after, before) {
 				return &Violation{Class: "file-damaged", Signature: "file-damaged|bebopfmt|stdout-mode|" + faultKind,
 					Detail: fmt.Sprintf("bebopfmt without -w changed %s", name), Facts: facts}
 			}
@@ -574,14 +656,36 @@ func execCLI(n *Node, sc *Scenario) *Violation {
 			return &Violation{Class: "exit-status", Signature: fmt.Sprintf("no-output|%s|%s|%s", tool, faultKind, role),
 				Detail: "bebopc-go exited 0 but did not write the output file", Facts: facts}
 		}
-		if tool == "bebopfmt" {
-			var ts []string
+		if tool == "bebopc-go" {
+			// a successful run changes its output file and nothing else
+			var ns []string
+			for name := range run.Before {
+				ns = append(ns, name)
+			}
+			sort.Strings(ns)
+			onChain := map[string]bool{} // the files a target name leads to are the target too
 			for t := range targets {
+				if rp := run.Real[t]; rp != "" {
+					onChain[rp] = true
+				}
+			}
+			for _, name := range ns {
+				if !targets[name] && !onChain[run.Real[name]] && !bytes.Equal(run.After[name], run.Before[name]) {
+					return &Violation{Class: "file-damaged", Signature: fmt.Sprintf("bystander-changed|%s|%s", tool, faultKind),
+						Detail: fmt.Sprintf("%s exited 0 and changed %s, which is neither its input nor its output", tool, name), Facts: facts}
+				}
+			}
+		}
+		if tool == "bebopfmt" {
+			// EVERY pre-existing file that reads differently now (whether or not the harness
+			// expected the tool to touch it) must still denote the schema it denoted before
+			var ts []string
+			for t := range run.Before {
 				ts = append(ts, t)
 			}
 			sort.Strings(ts)
 			for _, t := range ts {
-				before, after := []byte(sc.Files[t]), run.After[t]
+				before, after := run.Before[t], run.After[t]
 				if bytes.Equal(before, after) {
 					continue
 				}
